@@ -190,7 +190,11 @@ func isCmdPathExpr(scope ast.Node, e ast.Expr) bool {
 		}
 		assigned = true
 		r := exprString(as.Rhs[0])
-		if r != "cmd.Path" && r != "filepath.Join(cmd.Dir,"+id.Name+")" && r != "filepath.Join(cmd.Dir,cmd.Path)" {
+		// Dir and Path are put together the way the kernel will see them after os/exec's chdir(Dir): plain concatenation with
+		// a separator — NOT filepath.Join / Clean, which remove ".." lexically (wrong when Dir is a symbolic link)
+		sep := "string(filepath.Separator)"
+		if r != "cmd.Path" && r != "cmd.Dir+"+sep+"+"+id.Name && r != "cmd.Dir+"+sep+"+cmd.Path" &&
+			r != "cmd.Dir+string(os.PathSeparator)+"+id.Name && r != "cmd.Dir+string(os.PathSeparator)+cmd.Path" {
 			good = false
 		}
 		return true
